@@ -406,13 +406,23 @@ func runLibraryWith(root string, rootContent []byte, options []core.Option, entr
 	}
 	res.JSON = string(b)
 	stage = "tojsonindent"
-	b, err = j.ToJsonIndent()
+	b2, err := j.ToJsonIndent()
 	if err != nil {
 		res.SerErr += " tojsonindent: " + err.Error()
 	}
-	res.JSONIndent = string(b)
+	res.JSONIndent = string(b2)
 	stage = "title"
 	res.Title = j.Title()
+	// The bytes handed out earlier belong to the caller: a second serialisation (here, or by another
+	// goroutine of a concurrent workload) must not change them.
+	stage = "tojson-again"
+	b3, _ := j.ToJson()
+	if string(b) != res.JSON || string(b2) != res.JSONIndent {
+		res.SerErr += " returned-bytes-changed-after-return"
+	}
+	if string(b3) != res.JSON && err == nil {
+		res.SerErr += " second-tojson-differs"
+	}
 	return res
 }
 
